@@ -3,7 +3,7 @@ from expr import fmt, walk
 from harness import Skip
 from guards import phi_defs, SWAP
 from rules import xof_rules
-from rules.common import adapters_in, field_writes, calls_named, req
+from rules.common import adapters_in, field_writes, calls_named, req, strip, S
 
 INFO = {
     "explanation": "Static shape/GUARD rules over the MIR of the seed-stream and field-sampling code. Decided: (A) every XOF "
@@ -28,22 +28,6 @@ INFO = {
                      "external crates sha3/aes/ctr/hmac implement incremental absorption and streaming reads"],
     "assumptions": ["the accepted idioms for the block range are `a / 16 .. (a + n).div_ceil(16)` and `(a + n + 15) / 16`"],
 }
-
-
-def strip(e):
-    """peel conversions: casts, try_from/from/into and unwrap/expect wrappers"""
-    while isinstance(e, tuple):
-        if e[0] in ("cast", "conv", "try"):
-            e = e[1]
-        elif e[0] == "call" and e[1].split("::")[-1] in ("unwrap", "expect", "try_from", "from", "into", "try_into") and e[2]:
-            e = e[2][0]
-        else:
-            return e
-    return e
-
-
-def S(p):
-    return lambda e: p(strip(e))
 
 
 def run_fill(ctx):
